@@ -27,6 +27,7 @@ from fracexec import frac_str, frac_list
 from props import c14
 from props import c15_inputs
 import t3_util as T3
+import u4_util as U4
 
 MODULE = 'UwgVerif.Props.C15'
 THEOREMS = [
@@ -132,6 +133,7 @@ def gen_ucm(rng, kind=None, stock=None, nb=None):
         b['wextra'], b['rextra'], b['bextra'] = T3.element_extras(rng), T3.element_extras(rng), T3.bemdef_extras(rng)
         blds.append(b)
     c['blds'] = blds
+    c['circ'] = U4.circ_pick(rng)      # the canyon object rendered around the step / DEBUG logging on (no input)
     return c
 
 
@@ -198,8 +200,14 @@ def impl_ucm(pkg, c):
                              mass=NS(**mattrs), frac=b['frac'], fl_area=b['flArea'])))
     forc = NS(pres=c['pres'], hum=c['forcHum'])
     parameter = NS(cp=c['cp'])
+    circ = c.get('circ', '')
     try:
-        u.UCModel(BEM, c['tUbl'], forc, parameter)
+        if U4.rendered(circ):
+            U4.observe(u)
+        with U4.under(circ):
+            u.UCModel(BEM, c['tUbl'], forc, parameter)
+        if U4.rendered(circ):
+            U4.observe(u)
     except ZeroDivisionError:
         return 'err zerodiv'
     except IndexError:
@@ -302,6 +310,9 @@ def gen_ubl(rng, kind=None, branch=None):
     c['cells'] = None          # filled from the real constructor's cell count in impl_ubl
     c['cellgen'] = [temp() for _ in range(64)]
     c['override'] = {}
+    # circumstance of the step (no input of it): the UBLDef object rendered (repr / str) right before the step and
+    # again after it, before ublTemp and the cells are read; DEBUG logging on around the step; both
+    c['circ'] = U4.circ_pick(rng)
     return c
 
 
@@ -380,8 +391,14 @@ def impl_ubl(pkg, c, qubl=None):
     parameter = NS(cp=c['cp'], circCoeff=c['circCoeff'], g=c['g'], windMin=c['windMin'],
                    dayThreshold=c['dayThreshold'])
     simTime = NS(secDay=c['secDay'], dt=c['dt'])
+    circ = c.get('circ', '')
     try:
-        ubl.ublmodel(UCM, rsm_of(c), rural, forc, parameter, simTime)
+        if U4.rendered(circ):
+            U4.observe(ubl)
+        with U4.under(circ):
+            ubl.ublmodel(UCM, rsm_of(c), rural, forc, parameter, simTime)
+        if U4.rendered(circ):
+            U4.observe(ubl)
     except ZeroDivisionError:
         return line, 'err zerodiv'
     except IndexError:
@@ -636,6 +653,17 @@ def live_wrappers(sink, tol=1e-9, twin_every=12):
         def ublw(self, UCM, RSM, rural, forc, parameter, simTime):
             old_T = self.ublTemp
             old_cells = list(self.ublTempdx)
+            # the state the step starts from: whatever happened since the previous step (somebody looked at the
+            # object, a log line was written, another model ran), the layer temperature is the mean of its cells
+            m0 = sum(old_cells) / len(old_cells) if old_cells else old_T
+            sink('ubl-entry', label, 'mean-of-cells', None if abs(m0 - old_T) <= tol * abs(old_T) else
+                 'ubl: at the start of the step ublTemp %r is not the mean %r of its %d along-wind cells %r' % (
+                     old_T, m0, len(old_cells), old_cells[:6]))
+            # which closure the step takes, by the rule of the routine evaluated on its inputs (the shape of the
+            # result - all cells equal - cannot tell: a layer of ONE cell, charLength < 375 m, looks like that at night)
+            t_h, sun = simTime.secDay / 3600., forc.dir + forc.dif
+            day = (sun > parameter.dayThreshold and (t_h < 12. or abs(t_h - 12.) < 1e-10)) or \
+                (sun > parameter.dayThreshold and t_h > 12.) or (UCM.sensHeat > 150.0)
             o_ub(self, UCM, RSM, rural, forc, parameter, simTime)
             cells = list(self.ublTempdx)
             n = len(cells)
@@ -644,7 +672,9 @@ def live_wrappers(sink, tol=1e-9, twin_every=12):
             mean = sum(cells) / n
             if abs(mean - self.ublTemp) > tol * s:
                 msg = 'ubl: ublTemp %r is not the mean %r of its cells' % (self.ublTemp, mean)
-            day = all(c == cells[0] for c in cells) and cells[0] == self.ublTemp
+            elif day and not (all(c == cells[0] for c in cells) and cells[0] == self.ublTemp):
+                msg = 'ubl: day step, but the cells %r are not all equal to the well-mixed ublTemp %r' % (
+                    cells[:6], self.ublTemp)
             if day:
                 ts = [RSM.tempProf[RSM.nzref - 1], old_T]
             else:
@@ -709,6 +739,96 @@ def stock_runs(quick):
     return runs
 
 
+# =============================================================================== circumstances (round 4)
+def indoor_live_msg(c, r):
+    """indoor node of a live BEMCalc call: (branch, message). Heat added (internal + solar gains >= 0) and no system
+    acting: the room does not end below the coldest temperature it exchanges heat with."""
+    if r['Qhvac'] == 0 and r['Qheat'] == 0 and r['sensCoolDemand'] == 0:
+        ts = [c['tWall'], c['tMass'], c['tCeil'], c['canTemp']]
+        gains = r['int_heat'] + r['fluxSolar'] * r['nFloor']
+        ok = gains < 0 or min(ts) <= r['indoor_temp'] + 1e-9 * abs(r['indoor_temp'])
+        return 'hvac-at-rest', (None if ok else 'indoor: gains %r >= 0 but indoor temperature %r below min %r' % (
+            gains, r['indoor_temp'], min(ts)))
+    return 'hvac-acts', None
+
+
+def ubl_state_msg(ubl, when):
+    cells = list(ubl.ublTempdx)
+    mean = sum(cells) / len(cells)
+    if abs(mean - ubl.ublTemp) > 1e-9 * abs(ubl.ublTemp):
+        return 'boundary layer %s: ublTemp %r is not the mean %r of its %d along-wind cells %r' % (
+            when, ubl.ublTemp, mean, len(cells), cells[:6])
+    return None
+
+
+def u4_install(sink, ctx):
+    """the three node oracles (and the producers of their weights) as class-level wrappers, for harness/u4_util"""
+    core.repo_python_path()
+    import uwg as uwg_pkg
+    import uwg.building as bmod
+
+    def s4(node, label, branch, msg):
+        sink('%s:%s' % (node, branch), msg)
+    undo = [live_wrappers(s4, twin_every=48)(uwg_pkg, 'u4'), c15_inputs.live_install(s4)(uwg_pkg, 'u4')]
+    orig = bmod.Building.BEMCalc
+
+    def bem(self, UCM, BEM, forc, parameter, simTime):
+        c = c14.state_of_building(self, UCM, BEM, forc, parameter, simTime)
+        orig(self, UCM, BEM, forc, parameter, simTime)
+        branch, msg = indoor_live_msg(c, {k: getattr(self, k) for k in c14.OUT if hasattr(self, k)})
+        sink('indoor:' + branch, msg)
+    bmod.Building.BEMCalc = bem
+
+    def un():
+        bmod.Building.BEMCalc = orig
+        for f in undo:
+            f()
+        c15_inputs.LIVE_STATS.pop('u4', None)
+    return un
+
+
+def u4_state(when):
+    def f(m, spec, sink, ctx):
+        sink('ubl-state:' + when, ubl_state_msg(m.UBL, when))
+    return f
+
+
+U4_HOOKS = U4.Hooks(
+    install=u4_install, after_generate=u4_state('after generate()'), final=u4_state('after simulate()'),
+    kernels=[('uwg.UCMDef', 'UCMDef', 'UCModel', (1, 3, 4)),
+             ('uwg.UBLDef', 'UBLDef', 'ublmodel', (1, 2, 3, 4, 5, 6)),
+             ('uwg.UBLDef', 'UBLDef', 'nightforc', (5,)),
+             ('uwg.building', 'Building', 'BEMCalc', (1, 3, 4, 5))])
+
+
+def circumstance_ties(chk, quick):
+    """The six circumstances of harness/generic.py on live runs with the node oracles (see u4_util)."""
+    work = chk.work()
+    par_t, epw_t = U4.toronto()
+    scen = [U4.make_spec('singapore 1 Jan, 1 day, charLength 1000 (4 along-wind cells)', month=1, day=1, nday=1, dtsim=300),
+            U4.make_spec('toronto 10 Jan, 1 day, zone 5A, charLength 2600 (10 cells), three archetypes', epw=epw_t,
+                         param=par_t, month=1, day=10, nday=1, dtsim=300, zone='5A', charlength=2600,
+                         bld=[('largeoffice', 'pst80', 0.335), ('midriseapartment', 'pre80', 0.335),
+                              ('warehouse', 'new', 0.335)])]
+    if not quick:
+        scen += [U4.make_spec('singapore 30 Jun, 2 days, lowrise stock, charLength 300', month=6, day=30, nday=2, dtsim=300,
+                              charlength=300, bldheight=5.0, bld=[('warehouse', 'pst80', 0.4), ('supermarket', 'new', 0.6)]),
+                 U4.make_spec('toronto 1 Jul, autosize', epw=epw_t, param=par_t, month=7, day=1, nday=1, dtsim=300,
+                              zone='5A', autosize=1)]
+    counts, nbad, _ = U4.live_battery(
+        chk, 'C15', U4_HOOKS, scen, U4.others_default(work), 'C15 node oracles on live runs',
+        full=1 if quick else len(scen), required=('canyon', 'ubl:', 'ubl-entry', 'indoor', 'ubl-state'))
+    chk.direct('C15-circumstances(live runs: observers, logging, -O, CLI, other models, caller data)',
+               sum(counts.values()), len(scen),
+               'oracle = the live node statements (canTemp - Q/H2 within the exchanged temperatures, heat added never '
+               'below their minimum, indoor node with the HVAC at rest, ublTemp = mean of its cells AFTER every ublmodel '
+               'call and - new - at the START of every ublmodel call and on the model after generate() / simulate(), '
+               'bounds of the boundary layer, weights of urbflux / SurfFlux). Kernel routines rendered around their '
+               'calls: UCMDef.UCModel, UBLDef.ublmodel, UBLDef.nightforc (its RSM argument read-only), '
+               'Building.BEMCalc. Scenarios: %s. %s' % ('; '.join(s['label'] for s in scen), U4.BATTERY_RULE),
+               mismatches=nbad, branches=counts)
+
+
 def case_json(c):
     def j(v):
         if isinstance(v, F):
@@ -727,7 +847,7 @@ def unjson(v, key=None):
     if isinstance(v, dict):
         return {k: unjson(x, k) for k, x in v.items()}
     if isinstance(v, str) and key not in ('kind', 'want', 'cond', 'mode', 'run', 'stock', 'documented',
-                                          'condtype', 'bldtype', 'builtera'):
+                                          'condtype', 'bldtype', 'builtera', 'circ'):
         try:
             return F(v)
         except ValueError:
@@ -740,6 +860,13 @@ def replay(chk, path):
     import json
     v = json.load(open(path))
     what = v['theorem_or_tie']
+    if isinstance(v.get('case'), dict) and 'scenario' in v['case']:
+        # a finding of the circumstance ties: the scenarios derive from the seed, re-run them
+        core.repo_python_path()
+        circumstance_ties(chk, chk.tier == 'quick')
+        for x in chk.violations[:3]:
+            print('observed:', str(x['observed'])[:600])
+        return 1 if chk.violations else 0
     pkg = fracexec.load()
     msg_in = c15_inputs.replay(what, v['case'], pkg) if (
         isinstance(v.get('case'), dict) and v.get('kind') == 'impl-violation') else False
@@ -798,7 +925,8 @@ def run(chk):
              'building geometry (nFloor > 1 with floor_height = bldHeight / nFloor; the one-floor clamp of BEMCalc '
              'with floor_height 1..4 x the average building height); the building, wall, roof, mass and BEMDef '
              'stand-ins carry every attribute their class documents (legal values), the model sees only its own '
-             'inputs; exact equality of %s or of the error class' % ', '.join(UCM_OUT),
+             'inputs; three cases of five under a circumstance (object rendered around the step, DEBUG logging, both); '
+             'exact equality of %s or of the error class' % ', '.join(UCM_OUT),
         classify=lambda line, impl: kinds[line])
     bad = 0
     br = {}
@@ -890,7 +1018,9 @@ def run(chk):
         'UBLDef.ublmodel~ublModel', 'C15', upairs,
         rule='fractionised UBLDef.ublmodel (object built by its own constructor, then given the '
              'generated state) vs Lean `Uwg.Air.ublModel` at Q with the shared stub for '
-             '`** (1/3)`; exact equality of ublTemp and of every cell, or of the error class',
+             '`** (1/3)`; exact equality of ublTemp and of every cell, or of the error class; three cases of five '
+             'run under a circumstance that is no input: the UBLDef object rendered (repr / str) right before the step '
+             'and again before its results are read, DEBUG logging on around the step, or both',
         classify=lambda line, impl: ucls[line])
     bad = 0
     br = {}
@@ -955,16 +1085,8 @@ def run(chk):
             live_bad.append((label, msg))
 
     def on_bem(label, c, r):
-        # indoor node: heat added (internal + solar gains >= 0) and no system acting
-        if r['Qhvac'] == 0 and r['Qheat'] == 0 and r['sensCoolDemand'] == 0:
-            ts = [c['tWall'], c['tMass'], c['tCeil'], c['canTemp']]
-            gains = r['int_heat'] + r['fluxSolar'] * r['nFloor']
-            ok = gains < 0 or min(ts) <= r['indoor_temp'] + 1e-9 * abs(r['indoor_temp'])
-            sink('indoor', label, 'hvac-at-rest', None if ok else
-                 'indoor: gains %r >= 0 but indoor temperature %r below min %r' % (
-                     gains, r['indoor_temp'], min(ts)))
-        else:
-            sink('indoor', label, 'hvac-acts', None)
+        branch, msg = indoor_live_msg(c, r)
+        sink('indoor', label, branch, msg)
     runs = c14.LIVE_RUNS + (c14.LIVE_RUNS_THOROUGH if not quick else []) + stock_runs(quick)
     inst_nodes, inst_inputs = live_wrappers(sink), c15_inputs.live_install(sink)
 
@@ -1003,6 +1125,7 @@ def run(chk):
                    'are deep-copied, sources removed and every exchanged temperature set to T (then into a 0.01 K '
                    'band): the real UCModel must return T (stay in the band)' % sorted(done),
                    mismatches=len(live_bad), branches=live)
+    circumstance_ties(chk, quick)
     chk.assumptions.append(
         'C15: the three node updates are exercised through fracexec (exact rationals); the '
         'exponent 1/3 in the circulation velocity is the shared stub rpow; double rounding is '
